@@ -12,7 +12,9 @@ open PySMT.Mk
 
 theorem truth_node_not (I : Interp) (a : Term) (p : Payload) :
     truth I (.node .not [a] p) = !truth I a := by
-  simp [truth, eval_op, evalOp]
+  unfold truth
+  rw [eval_op I .not [a] p (by decide) (by decide) (by decide) (by decide)]
+  simp only [List.map_cons, List.map_nil, evalOp, isTrue_b]
 
 theorem not_truth (I : Interp) {a t : Term} (h : Mk.Not a = .ok t) : truth I t = !truth I a := by
   unfold Mk.Not at h
@@ -37,13 +39,23 @@ theorem or_truth (I : Interp) {as : List Term} {t : Term} (h : Mk.Or as = .ok t)
   · cases h; simp
   · rw [create_ok h]; simp [truth, eval_op, evalOp, isTrue_b, List.any_map, Function.comp_def]; rfl
 
+theorem evalOp_implies (I : Interp) (p : Payload) (a b : Val) :
+    evalOp I .implies p [a, b] = .b (!a.isTrue || b.isTrue) := rfl
+
+theorem evalOp_iff (I : Interp) (p : Payload) (a b : Val) :
+    evalOp I .iff p [a, b] = .b (a.isTrue == b.isTrue) := rfl
+
 theorem implies_truth (I : Interp) {a b t : Term} (h : Mk.Implies a b = .ok t) :
     truth I t = (!truth I a || truth I b) := by
-  rw [create_ok h]; simp [truth, eval_op, evalOp, isTrue_b]
+  rw [create_ok h]; unfold truth
+  rw [eval_op I .implies _ _ (by decide) (by decide) (by decide) (by decide)]
+  simp only [List.map_cons, List.map_nil, evalOp_implies, isTrue_b]
 
 theorem iff_truth (I : Interp) {a b t : Term} (h : Mk.Iff a b = .ok t) :
     truth I t = (truth I a == truth I b) := by
-  rw [create_ok h]; simp [truth, eval_op, evalOp, isTrue_b]
+  rw [create_ok h]; unfold truth
+  rw [eval_op I .iff _ _ (by decide) (by decide) (by decide) (by decide)]
+  simp only [List.map_cons, List.map_nil, evalOp_iff, isTrue_b]
 
 theorem xor_truth (I : Interp) {a b t : Term} (h : Mk.Xor a b = .ok t) :
     truth I t = (truth I a != truth I b) := by
